@@ -319,12 +319,26 @@ CHECKS = [
      "with identity, leave-one-out and seeded built-in replacement sampling incl. by_label/by_group), decoding index/columns, "
      "comparing with the model table, evaluating the Lean predicates on the observed frame, recomputing every entry with numpy from "
      "the rows carrying the observed label and every interval from the recorded bootstrap samples normalised like the reported value; "
-     "invalid inputs must raise AssertionError / ValueError / TypeError as documented.",
+     "invalid inputs must raise AssertionError / ValueError / TypeError as documented. End to end on the scripted RNG "
+     "(SA/Model/ShowbiasScript.lean, SA/Theorems/C18Script.lean): showbiasScript composes frame -> GroupScores, nb_samples "
+     "GroupScores.bootstrap_sample runs threading one RngState, the group metric of every sample (NaN for a group absent from a "
+     "sample), normalisation as coded and utils.bootstrap_ci per component; proved for ANY admissible tie order of the score_object "
+     "(C12_tie_order_irrelevant): C18_script_refines (value frame = sbTable, every interval cell = sbCI of the component model with "
+     "the script-driven replicates), C18_script_state / _requests (exactly nb_samples sample draws), C18_script_total (frames on every "
+     "script for the runnable built-in samplers), C18_script_shape, C18_script_ordered_quantile / _bc, C18_script_same_quantity / "
+     "_none_quantity, C18_script_nan (limits NaN exactly when the component has no finite normalised replicate), "
+     "C18_script_replicates and C18_script_nan_value (in-support scripts: replicates are metrics of samples whose pairs are pairs of "
+     "the data; a NaN value has all-NaN replicates for None / by_overall). Tied to /repo by the case kind 'script': the real "
+     "showbias(bootstrap_ci=True) with replacement / single_pass / dynamic x None / by_label / by_group under ScriptedRNG "
+     "(realistic and adversarial in-support answers), the held arrays of the implementation's GroupScores checked for admissibility "
+     "and used as the model's tie order, recorded scipy ppf / cdf with the two-pass oracle protocol, request trace, replicate array, "
+     "values and interval frames compared; the C18 clauses evaluated on the implementation's own frames.",
      BASE_NOTE + "The string<->code map per group column (rank among the sorted distinct values) is built and checked by the harness; "
      "pandas indexing is not modelled; scipy.stats.norm ppf/cdf and x**1.5 are oracles (C13 hypotheses); BCa ordering is evaluated "
      "only on the near side of its pole; group values containing NUL characters are outside the run (numpy/pandas truncate them: "
      "findings/C18_nul_group_value*.json). One open finding in known_findings.json: by_min + bootstrap (the interval belongs to "
-     "another quantity; signature showbias/by_min/bootstrap/.*; refuted statement C18_ci_by_min_statement). The harness keeps two "
+     "another quantity; signature showbias/by_min/bootstrap/.*; refuted statement C18_ci_by_min_statement); the scripted model carries by_min as coded (minimum over the bootstrap axis), "
+     "its corner 'NaN value with finite replicates under bc/bca' is outside the model. The harness keeps two "
      "descriptive signatures (showbias/bootstrap/all-nan-component/raises, showbias/bootstrap/int-metric-bca/raises) for the two "
      "utils.bootstrap_ci defects it met through showbias before they were repaired (f1e44e9, ae64b94); corpus/C18/regression_*.json "
      "pin them.",
@@ -389,7 +403,7 @@ CHECKS = [
      "comparing request traces exactly and samples exactly (up to the order inside tied blocks after an argsort), histories of "
      "cached queries against fresh objects and the Lean state machine, the 12 group_* metrics and groupwise(str/callable) "
      "against independently filtered Scores objects, a pass with the real global RNG, error branches, source unchanged.",
-     BASE_NOTE + "np.argsort is not stable: statements about the order inside tied blocks are up to permutation. Group names are "
+     BASE_NOTE + "np.argsort is not stable while the model sorts stably: C12_tie_order_irrelevant (SA/Theorems/C12Ties.lean) proves that every admissible joint order (a permutation of the input pairs sorted by score) has the same observables (gs[g] as lists, group matrices, overall matrix, group list, swap(), cached histories, sampling requests; by_group samples identical, other samples equal up to the re-indexing of the draws inside tied blocks); the harness compares tied blocks of the held label arrays as multisets, which is exactly admissibility. Group names are "
      "mapped to Nat codes by the harness (sort order preserved); label dtypes are not modelled. 'Stratifying by group preserves "
      "each group's sample count' is read for replacement sampling (single-pass sizes vary by design; its requests are covered by "
      "C12_strat_requests). swap() does not forward group_names (modelled as coded). by_group sampling reads per-group objects "
